@@ -32,7 +32,7 @@ HELPERS = """:- use_module(library(iso_ext)).
 :- use_module(library(lists)).
 :- dynamic(logged/1).
 log(T) :- assertz(logged(T)).
-t(1). t(2). t(3).
+t(A) :- ( A = 1 ; A = 2 ; A = 3 ).
 """
 RENAME = [("p", 3)]
 MAXANS = 20
@@ -244,7 +244,7 @@ def run(tier):
             unspec_diff += 1
             continue
         kind = "crash" if bad else ("log" if d.startswith("log") else "outcome")
-        rep.violation("%s fam=%s body=%s: %s" % (kind, v["fam"][0], body_text(v), d),
+        rep.violation("%s fam=%s%s body=%s: %s" % (kind, v["fam"][0], " nested-cleanup" if v.get("nested") else "", body_text(v), d),
                       {"vector": v, "diff": d, "program": pr.text, "query": pr.qtext})
     for v in vecs[:: max(1, len(vecs) // 5)]:
         rep.sample({"body": body_text(v), "status": v["status"],
